@@ -615,65 +615,73 @@ def window_leg(res, tmpdir):
             res.violation("lockfile-creation-window-late-opener-fails",
                           f"late opener: {type(ex).__name__}: {ex}",
                           case=desc)
-    # the sharper variant: B also takes a counter before A initialises
-    path = os.path.join(tmpdir, "w_sharp")
-    got = {}
+    def sharp(no):
+        # the sharper variant: B also takes a counter before A initialises
+        path = os.path.join(tmpdir, f"w_sharp{no}")
+        got = {}
 
-    class Proxy2:
-        def __getattr__(self, name):
-            return getattr(real_os, name)
+        class Proxy2:
+            def __getattr__(self, name):
+                return getattr(real_os, name)
 
-        def ftruncate(self, fd, n):
-            self.intrude()
-            return real_os.ftruncate(fd, n)
+            def ftruncate(self, fd, n):
+                self.intrude()
+                return real_os.ftruncate(fd, n)
 
-        def write(self, fd, data):
-            self.intrude()
-            return real_os.write(fd, data)
+            def write(self, fd, data):
+                self.intrude()
+                return real_os.write(fd, data)
 
-        def intrude(self):
-            if "b" not in got:
-                lockmod.os = real_os
-                try:
-                    b2 = LockFile(path, 0, 50)
-                    got["b"] = b2
+            def intrude(self):
+                if "b" not in got:
+                    lockmod.os = real_os
+                    try:
+                        b2 = LockFile(path, 0, 50)
+                        got["b"] = b2
 
-                    async def take():
-                        lk = ParallelMailboxLock(b2, 7)
-                        async with lk:
-                            return lk.next_counter()
-                    got["c"] = asyncio.run(take())
-                except Exception as ex:
-                    got["err"] = f"{type(ex).__name__}: {ex}"
-                finally:
-                    lockmod.os = proxy2
-    proxy2 = Proxy2()
-    lockmod.os = proxy2
-    try:
-        a = LockFile(path, 0, 50)
-    finally:
-        lockmod.os = real_os
-    desc = dict(mode="window", point="counter-taken-inside-window")
-    res.case(desc, nontrivial=True)
-    res.count("window_points")
-    if "b" not in got:
-        res.inconc("the creation window was not reached (no initialising "
-                   "write/ftruncate seen)")
-    elif "err" in got:
-        res.violation("lockfile-creation-window-late-opener-fails",
-                      f"participant opening during creation: {got['err']}",
-                      case=desc)
-    else:
-        async def rest():
-            la = ParallelMailboxLock(a, 7)
-            async with la:
-                return la.next_counter()
-        c2 = asyncio.run(rest())
-        why = chain_ok([got["c"], c2])
-        if why:
-            res.violation("lockfile-creation-window-counter-reset",
-                          f"counter taken inside the window was lost: {why}",
+                        async def take():
+                            lk = ParallelMailboxLock(b2, no)
+                            async with lk:
+                                return lk.next_counter()
+                        got["c"] = asyncio.run(take())
+                    except Exception as ex:
+                        got["err"] = f"{type(ex).__name__}: {ex}"
+                    finally:
+                        lockmod.os = proxy2
+        proxy2 = Proxy2()
+        lockmod.os = proxy2
+        try:
+            a = LockFile(path, 0, 50)
+        finally:
+            lockmod.os = real_os
+        desc = dict(mode="window", point="counter-taken-inside-window",
+                    terminal=no)
+        res.case(desc, nontrivial=True)
+        res.count("window_points")
+        if "b" not in got:
+            res.inconc("the creation window was not reached (no initialising "
+                       "write/ftruncate seen)")
+        elif "err" in got and no == 50 and "AssertionError" in got["err"]:
+            # a number at the very end of the range is refused (the file has
+            # no byte for it); a lock that accepts it has to keep its counter
+            res.count("window_top_of_range_refused")
+        elif "err" in got:
+            res.violation("lockfile-creation-window-late-opener-fails",
+                          f"participant opening during creation: {got['err']}",
                           case=desc)
+        else:
+            async def rest():
+                la = ParallelMailboxLock(a, no)
+                async with la:
+                    return la.next_counter()
+            c2 = asyncio.run(rest())
+            why = chain_ok([got["c"], c2])
+            if why:
+                res.violation("lockfile-creation-window-counter-reset",
+                              f"counter taken inside the window was lost: {why}",
+                              case=desc)
+    for no in (7, 49, 50):
+        sharp(no)
 
 
 def address_leg(res, rng, tmpdir):
